@@ -106,29 +106,11 @@ def main(tier):
                    "no `match tokenizer.next() { Some(t) => t, None => return Err }`")
         # get_next_token / Parser::new / Tokenizer::new shapes: shared premise `token_stream` (common.setup)
         # c. check_paren / function_static_arguments / find_item_list shapes
-        t = m.tb.fn_term(m.tb.fn("::parser::Parser::check_paren"))
-        okc = M(("if", ("call", "<Token as cmp::PartialEq>::eq", "?a", "?b"), ("seq", ("try", ("call", "P.get_next_token", ("param", "self"))), ("Ok", ("tuple",))), ("Err",)), t)
-        okc = okc is not None and {okc["?a"], okc["?b"]} == {("param", "expected"), CUR} or (okc is not None and CUR in (okc["?a"], okc["?b"]) and any(isinstance(x, tuple) and x[0] == "param" for x in (okc["?a"], okc["?b"])))
-        run.ob(bool(okc), "check-paren|%s" % ev, "C03-c check_paren: equal to the expected token -> consume it, otherwise Err", where(m, "::parser::Parser::check_paren"), T.show(t)[:300])
-        t = m.tb.fn_term(m.tb.fn("::parser::Parser::function_static_arguments"))
-        GA = "(try (call P.generate_ast (param self) (ctor OperatorCategory::DefaultZero)))"
-        want = ("(seq (try (call P.get_next_token (param self))) (try (call P.check_paren (param self) (ctor Token::LeftParen))) (let ?args (call Vec::new))"
-                " (for (bind ?i) (range (lit 0 i32) (param ?n)) (seq (| (seq (let ?a %s) (call Vec::push (var ?args) (var ?a))) (call Vec::push (var ?args) %s)) ...))"
-                " (try (call P.check_paren (param self) (ctor Token::RightParen))) (Ok (var ?args)))") % (GA, GA)
-        # the for body is matched piecewise below
-        okf = False
-        e = M("(seq (try (call P.get_next_token (param self))) (try (call P.check_paren (param self) (ctor Token::LeftParen))) (let ?args (call Vec::new)) (for (bind ?i) (range (lit 0 i32) (param ?n)) ?body) (try (call P.check_paren (param self) (ctor Token::RightParen))) (Ok (var ?args)))", t)
-        if e is not None:
-            body = e["?body"]
-            b1 = M(("seq", ("let", "?a", P(GA)), ("call", "Vec::push", ("var", e["?args"]), ("var", "?a")),
-                    ("if", ("op", "lt", "i32", ("var", e["?i"]), ("op", "sub", "i32", ("param", e["?n"]), ("lit", "1", "i32"))),
-                     ("try", ("call", "P.check_paren", ("param", "self"), ("ctor", "Token::Comma"))), ("unit",))), body)
-            b2 = M(("seq", ("call", "Vec::push", ("var", e["?args"]), P(GA)),
-                    ("if", ("op", "lt", "i32", ("var", e["?i"]), ("op", "sub", "i32", ("param", e["?n"]), ("lit", "1", "i32"))),
-                     ("try", ("call", "P.check_paren", ("param", "self"), ("ctor", "Token::Comma"))), ("unit",))), body)
-            okf = b1 is not None or b2 is not None
+        okc, why = m.check_paren_shape()
+        run.ob(bool(okc), "check-paren|%s" % ev, "C03-c check_paren: equal to the expected token -> consume it, otherwise Err", where(m, "::parser::Parser::check_paren"), why)
+        okf, why = m.fsa_shape()
         run.ob(okf, "fsa-shape|%s" % ev, "C03-c fixed-arity argument list: name, '(', n expressions separated by n-1 commas, ')'; exactly one push per argument",
-               where(m, "::parser::Parser::function_static_arguments"), T.show(t)[:400], sample={"evaluator": ev, "function_static_arguments": "( e1 , ... , en ) with n pushes"})
+               where(m, "::parser::Parser::function_static_arguments"), why, sample={"evaluator": ev, "function_static_arguments": "( e1 , ... , en ) with n pushes: " + why[:60]})
         has_var = any(a == "var" and ev in evs for (a, evs) in spec.FUNCTIONS.values())
         fil = m.tb.fn("::parser::Parser::find_item_list")
         if fil is None and not has_var:
